@@ -146,6 +146,7 @@ type Frame struct {
 	loopsUsed map[int]bool
 	rangeInfo map[*ssa.Range]*rangeInfo
 	id        int
+	noKeep    bool // the next heap havoc must not preserve monitor-protected state
 	predGuard map[*ssa.BasicBlock]Term // for phi: guard of the edge from each pred into the current block
 }
 
@@ -319,6 +320,7 @@ func (fr *Frame) runBody(st *State, g Term) (retGuard Term, out *State, results 
 			}
 		}
 		bg := fr.define(fmt.Sprintf("g.%s.b%d", fn.Name(), b.Index), Or(gs...))
+		DebugWhere = fmt.Sprintf("%s b%d %s", fn.Name(), b.Index, b.Comment)
 		fr.st = fr.R.Heap.Merge(fr.R.Sc, gs, sts)
 		fr.cur = bg
 		fr.curBlock = b
@@ -341,6 +343,7 @@ func (fr *Frame) runBody(st *State, g Term) (retGuard Term, out *State, results 
 		sts = append(sts, r.st)
 	}
 	retGuard = fr.define("ret."+fn.Name(), Or(gs...))
+	DebugWhere = "returns of " + fn.Name()
 	out = fr.R.Heap.Merge(fr.R.Sc, gs, sts)
 	n := len(fr.rets[0].results)
 	results = make([]Val, n)
@@ -424,7 +427,7 @@ func (fr *Frame) panicAt(pos token.Pos, what string, cond Term) {
 		return
 	}
 	c := fr.topContract()
-	if c != nil && c.NoPanic {
+	if c != nil && (c.NoPanic || (c.NoExplicitPanic && what == "explicit")) {
 		// allowed when a 'panics when' clause covers it
 		goal := Implies(And(fr.cur, cond), fr.panicAllowed())
 		fr.R.addObl("panic", what+"@"+fr.R.pos(pos), goal, "no panic: "+what, nil, pos)
